@@ -44,6 +44,12 @@ UsedBeforeDeclared(stmts, inj) ==
      /\ IsInjDecl(stmts[i], [inj |-> inj, b |-> <<>>])
      /\ \E j \in 1..(i - 1) : UsesAny(stmts[j], {stmts[i].c[1].c[k].c[1].v : k \in 1..Len(stmts[i].c[1].c)})
 
+(* a temporary of an enclosing activation used in a nested one: the listed finding D10 only where the finding  *)
+(* says it happens -- parameter lists of non-arrow functions and instance-field initialisers, which have no     *)
+(* block of their own; anywhere else (a nested function BODY) it is a violation                                  *)
+OuterUse(S) == IF S.d10pos THEN {"dev:D10-temporary-shared-across-activations"}
+               ELSE {"an injected temporary of an enclosing function activation is used in a nested function body"}
+
 RECURSIVE Hyg(_, _), HygSeq(_, _, _), HygKids(_, _)
 
 HygKids(n, S) == UNION {Hyg(n.c[k], S) : k \in 1..Len(n.c)}
@@ -57,7 +63,7 @@ HygSeq(elems, S, acc) ==
                 p1 == Hyg(e.c[2], S)
                 p2 == IF nm \in S.live THEN {"an injected temporary is reassigned while an enclosing expression still needs it"} ELSE {}
                 p3 == IF nm \in S.scope THEN {}
-                      ELSE IF nm \in S.outer THEN {"dev:D10-temporary-shared-across-activations"}
+                      ELSE IF nm \in S.outer THEN OuterUse(S)
                       ELSE {"an injected temporary is not declared by the injected let of the block that uses it"}
             IN HygSeq(Tail(elems), [S EXCEPT !.live = @ \cup {nm}], acc \cup p1 \cup p2 \cup p3)
        ELSE HygSeq(Tail(elems), S, acc \cup Hyg(e, S))
@@ -68,25 +74,26 @@ Hyg(n, S) ==
          (IF UsedBeforeDeclared(n.c[1].c, S.inj)
           THEN {"an injected temporary is used by a statement in front of its declaration (temporal dead zone)"} ELSE {})
          \cup HygKids(n.c[1], [S EXCEPT !.scope = L, !.same = (S.same \cup S.scope) \ L,
-                                        !.outer = S.outer \ L, !.live = S.live \ L])
+                                        !.outer = S.outer \ L, !.live = S.live \ L, !.d10pos = FALSE])
     [] n.t \in FnKinds ->
          \* a new activation: nothing of the enclosing activation may be used in it
-         HygKids(n, [S EXCEPT !.scope = {}, !.same = {}, !.outer = S.outer \cup S.same \cup S.scope])
+         HygKids(n, [S EXCEPT !.scope = {}, !.same = {}, !.outer = S.outer \cup S.same \cup S.scope,
+                              !.d10pos = (n.t # "ArrowFunctionExpression")])
     [] n.t \in {"ClassProperty", "PrivateProperty"} /\ (n.a = "isStatic=false") ->
          \* instance field initialisers run once per construction, in an activation of their own
-         HygKids(n, [S EXCEPT !.scope = {}, !.same = {}, !.outer = S.outer \cup S.same \cup S.scope])
+         HygKids(n, [S EXCEPT !.scope = {}, !.same = {}, !.outer = S.outer \cup S.same \cup S.scope, !.d10pos = TRUE])
     [] n.t = "SequenceExpression" -> HygSeq(n.c[1].c, S, {})
     [] n.t = "AssignmentExpression" /\ n.c[1].t = "Identifier" /\ n.c[1].v \in S.inj ->
          {"an injected temporary is assigned outside an injected sequence"} \cup Hyg(n.c[2], S)
     [] n.t = "Identifier" /\ n.v \in S.inj /\ ~IsNameOnly(n) ->
          (IF n.v \in S.scope THEN {}
-          ELSE IF n.v \in S.outer THEN {"dev:D10-temporary-shared-across-activations"}
+          ELSE IF n.v \in S.outer THEN OuterUse(S)
           ELSE {"an injected temporary is not declared by the injected let of the block that uses it"})
          \cup (IF n.v \in S.live THEN {} ELSE {"an injected temporary is read before it is assigned"})
     [] n.t = "VariableDeclaration" /\ IsInjDecl(n, [inj |-> S.inj, b |-> <<>>]) -> {}
     [] OTHER -> HygKids(n, S)
 
-Hyg0(out, inj) == Hyg(out, [inj |-> inj, scope |-> {}, same |-> {}, outer |-> {}, live |-> {}])
+Hyg0(out, inj) == Hyg(out, [inj |-> inj, scope |-> {}, same |-> {}, outer |-> {}, live |-> {}, d10pos |-> FALSE])
 
 (* reserved-prefix spelled variable occurrences of a tree, split by whether the rewriter's   *)
 (* collision scan is documented to see the position                                           *)
